@@ -2,6 +2,7 @@ import sys, subprocess
 sys.path.insert(0,'/verif')
 from vx.emit import Emitter
 u=sys.argv[1]
-e=Emitter('/repo','/verif/contracts/%s.vt'%u, checks_value=(len(sys.argv)>2 and sys.argv[2]=='1'))
+import os
+e=Emitter(os.environ.get('VERIF_REPO','/repo'),'/verif/contracts/%s.vt'%u, checks_value=(len(sys.argv)>2 and sys.argv[2]=='1'))
 t=e.emit()
 open('/var/tmp/p/%s.rs'%u,'w').write(t)
